@@ -16,6 +16,7 @@ EXPLANATION = (
     "ast.Constant(value=default) through as_literal, which performs no conversion; (R3) the constant gate check_ast raises ValueError for "
     "every ast.Constant whose value is not an instance of g_legal_capture_types - unconditionally, for every node - that tuple contains "
     "only immutable scalar types, and the gate dominates node construction in the three operators, applied to the very lambda that is emitted."
+    " (R6) a name found in the capture snapshot is embedded whatever its value - membership, not truthiness, decides (C04.R3 re-evaluated)."
 )
 NOT_DECIDED = "round-trip equality for every value of every listed type through repr/ast.parse (a statement over all inputs; shortest-repr of floats is trusted stdlib)."
 
